@@ -1,6 +1,8 @@
 import MalVerif.Py.TieNeo4jModel
 import MalVerif.Py.TieNeo4jGraph
 import MalVerif.Py.TieNeo4jGet
+import MalVerif.Py.TieNeo4jGetFull
+import MalVerif.Py.TieNeo4jStore
 import MalVerif.PropsGen.C05
 import MalVerif.Props.C19
 /-!
@@ -48,12 +50,20 @@ node types; into an empty or deleted database):
 * `no_mixed_match_needed` — the counterexample of the reference model transferred: two assets linked by `A` and `B`,
   a third declaration `Mix` with the left field of `A` and the right field of `B`: translated `get_model` over
   translated `ingest_model` comes back with a spurious `Mix` link.
-No state-by-state tie of the second loop of `get_model`: the translated code allocates the association object before
-`association_exists_between_assets` and drops it when the link exists, so its heap differs from the reference state
-by unreachable objects and shifted allocation counters (see notes/NOTES_neo4j.md).
+* `SameObs`, `rel_sameObs` — the observational equivalence on model states (same assets with id / name / type / defense
+  values / extras, same associations with class, fields and member ids in order, same attackers, same reserved ids /
+  names / next id); the relation `Sim.Rel` kept by the loops (same model up to association references) implies it;
+* `get_model_refines` — the general tie: whenever the reference `Neo.getModel` returns on the abstracted database, the
+  translated `get_model` returns an observationally equal, coherent model (the translated second loop allocates an
+  association object per row before the existence test and drops it when the link exists: not observed);
+* `get_model_inverts` — `C19.get_model_inverts` transferred in full: translated `get_model` over what translated
+  `ingest_model` stored reconstructs the same assets and exactly the pairwise expansion of the links;
+  `demo_hypotheses`: its hypotheses are satisfiable;
+* `ingest_model_appends`, `ingest_attack_graph_appends` — without `delete` what is sent is appended to the database;
+* `graphOK_of_consistent` — `GraphOK` from the structural invariant `AGS.Consistent` (C09), ids and known types.
 -/
 namespace MalVerif.PropsGen.C19
-open MalVerif MalVerif.PyM MalVerif.PyN MalVerif.PyN.TieM MalVerif.PyN.TieGet
+open MalVerif MalVerif.PyM MalVerif.PyN MalVerif.PyN.TieM MalVerif.PyN.TieGet MalVerif.PyN.Sim
 
 /-- the coherence invariant of the reference model, on heaps -/
 abbrev Inv (s : H) : Prop := MS.Inv (abs s)
@@ -368,5 +378,167 @@ theorem no_mixed_match_needed (w' : W) (h : Gen.ingest_model {} mixHeap "uri" "u
     rcases mix_ids t ht with rfl | rfl
     · exact parse_int 1 "1" (by decide +kernel)
     · exact parse_int 2 "2" (by decide +kernel)
+
+
+/-! ### the general tie of `get_model`, and the inversion theorem for the translated code -/
+
+/-- the observational equivalence C19 talks about ("the same assets and links"): the same assets (id, name, type,
+value of every defense, extras), the same associations (class, field names, member ids in order), the same attackers
+(entry points by asset id), all in the same order, and the same reserved ids / names and next id.  Unreachable objects,
+allocation counters and the references themselves are not observed. -/
+structure SameObs (L : Lang) (m m' : MS.St) : Prop where
+  model : Ser.SameModel L m m'
+  ids : m.assetIds = m'.assetIds
+  names : m.assetNames = m'.assetNames
+  nextId : m.nextId = m'.nextId
+
+/-- the relation kept by the loops of the translated `get_model` (`Sim.Rel`: the same model up to association
+references) implies the observational equivalence -/
+theorem rel_sameObs {L : Lang} {m m' : MS.St} (h : Rel m m') : SameObs L m m' :=
+  ⟨h.sameModel, h.reserved.1, h.reserved.2.1, h.reserved.2.2⟩
+
+/-- **general tie**: whenever the reference `Neo.getModel` over the abstracted database returns a model (the database
+being well formed and without entry-point relationships, the classes of the resolved rows existing), the translated
+`get_model` returns too, with observationally the same model, and the result is coherent.  The translated second loop
+allocates an association object per row before the existence test; the objects it drops are not observed. -/
+theorem get_model_refines (L : Lang) (nodes : List AssocDecl) (menv : ModelEnv) (hE : EqId menv) (w : W) (hok : DbOK w.db)
+    (hfuel : w.db.nodes.length + 1 ≤ menv.whileFuel) (m' : MS.St)
+    (href : Neo.getModel L nodes (absDb w.db) = .ok m')
+    (hres : ∀ s1', (absDb w.db).nodes.foldlM (Neo.assetStepN L) ({} : MS.St) = .ok s1' →
+      RowsResolved L nodes (absDb w.db) s1')
+    (uri user pw db : String) :
+    ∃ s', Gen.get_model w (envOf L nodes menv) uri user pw db = .ok s' ∧ SameObs L (abs s') m' ∧ Inv s' := by
+  obtain ⟨s', h1, h2, h3⟩ := get_model_sim L nodes menv hE w hok hfuel m' href hres uri user pw db
+  exact ⟨s', h1, rel_sameObs h2, h3⟩
+
+/-- what `ingest_model` stores is `DbOK` -/
+theorem ingest_model_dbOK (w : W) (s : H) (h : Inv s) (hfs : Legacy.NoFirstSteps (abs s)) (uri user pw db : String)
+    (delete : Bool) (hdb : delete = true ∨ w.db = {}) (w' : W)
+    (hrun : Gen.ingest_model w s uri user pw db delete = .ok w') : DbOK w'.db := by
+  obtain ⟨w'', h1, h2⟩ := ingest_model_refines w s h uri user pw db delete hdb
+  rw [hrun] at h1
+  obtain rfl := Except.ok.inj h1
+  have hrels : w'.db.rels.map absRel = (Neo.ingestModel (abs s)).rels := congrArg Neo.Sub.rels h2
+  have hnodes : w'.db.nodes.map absNode = (Neo.ingestModel (abs s)).nodes := congrArg Neo.Sub.nodes h2
+  have hlen : (Neo.ingestModel (abs s)).nodes.length = w'.db.nodes.length := by rw [← hnodes, List.length_map]
+  refine ⟨ingest_model_dbWF w s h uri user pw db delete hdb w' hrun, ?_, ?_⟩
+  · intro r hr
+    have := rels_in_range (abs s) h (absRel r) (by rw [← hrels]; exact List.mem_map_of_mem hr)
+    rw [hlen] at this
+    exact this
+  · intro r hr
+    exact rels_noFirstSteps (abs s) h hfs (absRel r) (by rw [← hrels]; exact List.mem_map_of_mem hr)
+
+/-- **reading a model back from what was ingested reconstructs the same assets and links** — for the translated code:
+`C19.get_model_inverts` transferred in full.  Translated `get_model` over what translated `ingest_model` stored for a
+coherent valid model returns a coherent model with one asset per asset (same id, name, type; every defense at its
+default) and exactly the pairwise expansion of the links, none twice, no attackers.  Hypotheses: those of the reference
+theorem (`FieldsDiffer` is automatic: `fields_differ_automatic`; `NoMixedMatch` stays needed: `no_mixed_match_needed`),
+the non-empty class names (`NamesNonempty`: Python raises `LookupError` on an empty class name, the reference does
+not look), pjs equality relating no two objects (`EqId`) and the bound of the renaming loop of `add_asset`. -/
+theorem get_model_inverts (L : Lang) (nodes : List AssocDecl) (menv : ModelEnv) (hE : EqId menv) (s : H) (h : Inv s)
+    (hv : MS.Valid L (abs s)) (hna : ∀ a ∈ s.assets, (s.a a).type ≠ "Attacker")
+    (hr : Legacy.PairsResolve L nodes (abs s)) (hm : Neo.NoMixedMatch L nodes (abs s)) (hfs : Legacy.NoFirstSteps (abs s))
+    (hne : NamesNonempty L) (hfuel : s.assets.length + 1 ≤ menv.whileFuel)
+    (w : W) (uri user pw db : String) (delete : Bool) (hdb : delete = true ∨ w.db = {}) :
+    ∃ w' s', Gen.ingest_model w s uri user pw db delete = .ok w' ∧
+      Gen.get_model w' (envOf L nodes menv) uri user pw db = .ok s' ∧ Inv s' ∧
+      s'.assets.map (Ser.assetView L (abs s')) =
+        s.assets.map (fun a => ⟨attrInt (s.a a).id, attrStr (s.a a).name, (s.a a).type, MS.defensesOf L (s.a a).type, "{}"⟩) ∧
+      (∀ v, v ∈ s'.associations.map (Ser.assocView (abs s')) ↔
+        ∃ l ∈ s.associations, ∃ x ∈ (s.l l).left, ∃ y ∈ (s.l l).right,
+          v = ⟨(s.l l).cls, (s.l l).lf, [attrInt (s.a x).id], (s.l l).rf, [attrInt (s.a y).id], "{}"⟩) ∧
+      (s'.associations.map (Ser.assocView (abs s'))).Nodup ∧
+      (s'.associations.map (Ser.assocView (abs s'))).Perm ((Legacy.pairsOf (abs s)).map Legacy.Pair.view) ∧
+      s'.attackers = [] := by
+  obtain ⟨w', hw', habs⟩ := ingest_model_refines w s h uri user pw db delete hdb
+  obtain ⟨m', hm', _, ha, hmem, hnd, hperm, hatt⟩ :=
+    _root_.MalVerif.C19.get_model_inverts L nodes (abs s) h hv hna hr hm hfs (fields_differ_automatic s)
+  have hok := ingest_model_dbOK w s h hfs uri user pw db delete hdb w' hw'
+  have hlen : w'.db.nodes.length = s.assets.length := by
+    have : w'.db.nodes.map absNode = (Neo.ingestModel (abs s)).nodes := congrArg Neo.Sub.nodes habs
+    have e := congrArg List.length this
+    rw [List.length_map, Neo.ingestModel_nodes, List.length_map] at e
+    exact e
+  obtain ⟨s', hs', hR, hI⟩ := get_model_sim L nodes menv hE w' hok (by rw [hlen]; exact hfuel) m'
+    (by rw [habs]; exact hm')
+    (by
+      intro s1' h1
+      rw [habs] at h1 ⊢
+      exact rowsResolved_ingest L nodes (abs s) h hv hna hr hm hfs (fields_differ_automatic s) hne s1' h1)
+    uri user pw db
+  have sm := hR.sameModel (L := L)
+  have e1 : s'.assets.map (Ser.assetView L (abs s')) = m'.assets.map (Ser.assetView L m') := sm.assets
+  have e2 : s'.associations.map (Ser.assocView (abs s')) = m'.associations.map (Ser.assocView m') := sm.assocs
+  refine ⟨w', s', hw', hs', hI, ?_, ?_, ?_, ?_, ?_⟩
+  · rw [e1]; exact ha
+  · intro v; rw [e2]; exact hmem v
+  · rw [e2]; exact hnd
+  · rw [e2]; exact hperm
+  · have : (abs s').attackers = m'.attackers := hR.attackers
+    rw [hatt] at this
+    exact this
+
+/-- the hypotheses of `get_model_inverts` are satisfiable: `demoHeap` (two assets with the ids 0 and -3, a link, built by
+the translated model operations) with the language of the C05 / C06 examples and its declarations as association nodes -/
+theorem demo_valid : MS.Valid MS.Demo.lang (abs demoHeap) := by
+  have e := (C05.reachable_inv MS.Demo.lang C05.demo_fieldsDistinct C05.idEnv_eqId (C05.demoOps.take 5)
+    ⟨by show _ ≤ _; decide, by show _ ≤ _; decide, trivial, trivial, trivial, trivial⟩).1
+  show MS.Valid MS.Demo.lang (abs ((C05.demoOps.take 5).foldl (Tie.stepGen MS.Demo.lang C05.idEnv) {}))
+  rw [e]
+  apply MS.foldl_applyOp_valid _ _ _ Tie.init_inv
+  refine ⟨?_, ?_, ?_, ?_, ?_⟩
+  · intro a ha; cases ha
+  · intro l hl; cases hl
+  · intro l hl; cases hl
+  · intro l hl; cases hl
+  · intro l hl; cases hl
+
+theorem demo_hypotheses :
+    EqId C05.idEnv ∧ Inv demoHeap ∧ MS.Valid MS.Demo.lang (abs demoHeap) ∧
+    (∀ a ∈ demoHeap.assets, (demoHeap.a a).type ≠ "Attacker") ∧
+    Legacy.PairsResolve MS.Demo.lang MS.Demo.lang.assocs (abs demoHeap) ∧
+    Neo.NoMixedMatch MS.Demo.lang MS.Demo.lang.assocs (abs demoHeap) ∧ Legacy.NoFirstSteps (abs demoHeap) ∧
+    NamesNonempty MS.Demo.lang ∧ demoHeap.assets.length + 1 ≤ C05.idEnv.whileFuel := by
+  obtain ⟨h1, h2, h3, _⟩ := _root_.MalVerif.C19.resolution_of_unique_fields MS.Demo.lang MS.Demo.lang.assocs (abs demoHeap)
+    demo_inv demo_valid (fun _ h => h) (by decide) ⟨by decide, by decide⟩ (by decide)
+  exact ⟨C05.idEnv_eqId, demo_inv, demo_valid, by decide, h1, h2, h3, by unfold NamesNonempty; decide, by decide⟩
+
+/-- so the inversion theorem applies to it (the same conclusion as the kernel run `demo_roundtrip`, now by the general
+theorem) -/
+example : ∃ w' s', Gen.ingest_model {} demoHeap "uri" "u" "p" "db" true = .ok w' ∧
+    Gen.get_model w' (envOf MS.Demo.lang MS.Demo.lang.assocs C05.idEnv) "uri" "u" "p" "db" = .ok s' ∧ Inv s' ∧
+    s'.attackers = [] ∧ (s'.associations.map (Ser.assocView (abs s'))).Nodup := by
+  obtain ⟨hE, hI, hV, hna, hr, hm, hfs, hne, hfuel⟩ := demo_hypotheses
+  obtain ⟨w', s', a, b, c, _, _, d, _, e⟩ := get_model_inverts MS.Demo.lang MS.Demo.lang.assocs C05.idEnv hE demoHeap hI hV hna
+    hr hm hfs hne hfuel {} "uri" "u" "p" "db" true (Or.inl rfl)
+  exact ⟨w', s', a, b, c, e, d⟩
+
+/-! ### the ingest functions without `delete`: what is stored is appended -/
+
+/-- `ingest_model` on any database: the nodes and relationships of the model are appended to what is stored
+(`delete = False`), the positions of the new relationships shifted by the number of nodes that were there -/
+theorem ingest_model_appends (w : W) (s : H) (h : Inv s) (uri user pw db : String) (delete : Bool) :
+    ∃ w' d, Gen.ingest_model w s uri user pw db delete = .ok w' ∧ absDb d = Neo.ingestModel (abs s) ∧
+      w'.db = Db.append (if delete then {} else w.db) d := by
+  have hrun := ingest_model_run_gen w s (modelOK_of_inv s h) uri user pw db delete
+  obtain ⟨w0, h0, habs, _⟩ := ingest_model_tie w s (modelOK_of_inv s h) uri user pw db true (Or.inl rfl)
+  rw [ingest_model_run w s (modelOK_of_inv s h) uri user pw db true (Or.inl rfl)] at h0
+  obtain rfl := Except.ok.inj h0
+  exact ⟨_, _, hrun, habs, rfl⟩
+
+/-- `ingest_attack_graph` on any database, for every graph heap with distinct ids and closed children -/
+theorem ingest_attack_graph_appends (w : W) (s : Py.H) (uri user pw db : String) (delete : Bool)
+    (hnd : (s.nodes.map (fun r => (s.n r).id)).Nodup) (hcl : ∀ r ∈ s.nodes, ∀ c ∈ (s.n r).children, c ∈ s.nodes) :
+    Gen.ingest_attack_graph w s uri user pw db delete =
+      .ok { objs := w.objs ++ s.nodes.map (TieG.stepRec s),
+            db := Db.append (if delete then {} else w.db) (TieG.resultDb s) } :=
+  TieG.ingest_attack_graph_heap_gen w s uri user pw db delete hnd hcl
+
+/-- `ingest_attack_graph_iso` applies to every graph heap that satisfies the structural invariant of the attack-graph
+state machine (C09: kept by every translated graph operation), has ids and known node types -/
+theorem graphOK_of_consistent (s : Py.H) (nf af : Nat) (hc : AGS.Consistent (Py.absS s nf af))
+    (hids : ∀ r ∈ s.nodes, (s.n r).id.isSome) (ht : ∀ r ∈ s.nodes, Py.KnownType (s.n r).type) : TieG.GraphOK s :=
+  TieG.graphOK_of_consistent s nf af hc hids ht
 
 end MalVerif.PropsGen.C19
